@@ -274,6 +274,87 @@ func c19RouteLevel(c *vk.Case) {
 	c.Obs("route_level_runs", 1)
 	c.SetSig("route-level:real-binary")
 	c.Sample(map[string]any{"route_level": sample})
+	if len(c.Res.Violations) == 0 {
+		c19RouteNoConfig(c, bin)
+	}
+}
+
+// c19RouteNoConfig: the real binary started without a configuration file (DATABASE_URL only; everything comes from
+// the database). No password is configured, the process makes one up: the empty password must not open a session.
+func c19RouteNoConfig(c *vk.Case, bin string) {
+	pg, err := fakepg.New()
+	if err != nil {
+		c.Inconclusive("fakepg: %v", err)
+		return
+	}
+	defer pg.Close()
+	pg.SetSchemaScript(shovel.Schema)
+	dir, err := os.MkdirTemp("", "vroute")
+	if err != nil {
+		c.Inconclusive("tmp: %v", err)
+		return
+	}
+	defer os.RemoveAll(dir)
+	ln, err := net.Listen("tcp", "127.0.0.1:0")
+	if err != nil {
+		c.Inconclusive("listen: %v", err)
+		return
+	}
+	addr := ln.Addr().String()
+	ln.Close()
+	var out bytes.Buffer
+	cmd := exec.Command(bin, "-l", addr)
+	cmd.Dir = dir
+	cmd.Env = append(os.Environ(), "DATABASE_URL="+pg.URL())
+	cmd.Stdout, cmd.Stderr = &out, &out
+	if err := cmd.Start(); err != nil {
+		c.Inconclusive("starting shovel: %v", err)
+		return
+	}
+	exited := make(chan error, 1)
+	go func() { exited <- cmd.Wait() }()
+	defer func() {
+		cmd.Process.Kill()
+		<-exited
+	}()
+	base := "http://" + addr
+	client := &http.Client{Timeout: 5 * time.Second, CheckRedirect: func(*http.Request, []*http.Request) error { return http.ErrUseLastResponse }}
+	up := false
+	for i := 0; i < 400 && !up; i++ {
+		select {
+		case err := <-exited:
+			exited <- err
+			c.Inconclusive("shovel without a configuration file exited during start-up: %v\n%s\nunsupported: %v", err, tail(out.String(), 1500), pg.Unsupported())
+			return
+		default:
+		}
+		if resp, err := client.Get(base + "/login"); err == nil {
+			resp.Body.Close()
+			up = true
+		} else {
+			time.Sleep(25 * time.Millisecond)
+		}
+	}
+	if !up {
+		c.Inconclusive("dashboard (no configuration file) did not come up: %s", tail(out.String(), 1500))
+		return
+	}
+	for _, form := range []url.Values{{"password": {""}}, {}} {
+		resp, err := client.PostForm(base+"/login", form)
+		if err != nil {
+			c.Inconclusive("login: %v", err)
+			return
+		}
+		resp.Body.Close()
+		c.Obs("route_requests", 1)
+		c.Obs("route_noconfig_empty_password_logins", 1)
+		c.Evals(1)
+		if len(resp.Cookies()) > 0 {
+			c.Violate("route:session-issued-for-empty-password:no-configuration-file", map[string]any{"status": resp.StatusCode, "form": form.Encode()},
+				"started without a configuration file (no password configured), POST /login with %q answered %d and set a session cookie", form.Encode(), resp.StatusCode)
+			return
+		}
+	}
 }
 
 func tail(s string, n int) string {
